@@ -20,20 +20,19 @@ R == INSTANCE FramerCore WITH SOFc <- SOF, LeaderLen <- 3, ProbeLen <- 5,
 
 \* all messages of a stream, by running the framer transitions to completion
 Messages(in) ==
-  FoldLeft(LAMBDA a, k : IF a[1].done THEN a ELSE R!StepOn(a[1], a[2]),
-           << R!St0, in >>, [k \in 1..(2 * Len(in) + 6) |-> k])[1].out
+  FoldLeft(LAMBDA a, k : IF a[1].done THEN a ELSE R!StepIdx(a[1], in, a[2]),
+           << R!St0, 0 >>, [k \in 1..(2 * Len(in) + 6) |-> k])[1].out
 
 VARIABLES l, bad
 
 Ok(e) ==
-    LET msgs == Messages(e.in)
-        typed == SelectSeq(msgs, LAMBDA m : m.type >= 0)
-        want == R!Concat(typed)
-    IN /\ e.ret = ""
+  \E msgs \in {Messages(e.in)} :
+  \E want \in {R!Concat(SelectSeq(msgs, LAMBDA m : m.type >= 0))} :
+       /\ e.ret = ""
        /\ e.out = want
        /\ (e.record => e.has_rec /\ e.rec = want)          \* (a day's file is created at the first write:
        /\ (e.display => (msgs # <<>> => e.has_disp)        \*  no message, possibly no file)
-                        /\ e.entries = [i \in 1..Len(msgs) |-> Len(msgs[i].raw)])
+                        /\ e.entries = FoldLeft(LAMBDA acc, m : Append(acc, Len(m.raw)), <<>>, msgs))
 
 Init == l = 1 /\ bad = <<>>
 Next == /\ l <= Len(Trace)
